@@ -720,6 +720,74 @@ def reviewedAstSites : List (String × String × String) := [
 def astSiteReviewed (s : String × String) : Bool :=
   reviewedAstSites.any (fun r => r.1 == s.1 && r.2.1 == s.2)
 
+/-! ## 3d. tick.Evaluate: nested recovers, reviewed trap sites -/
+
+/-- Where, during `tick.Evaluate`, a panic is raised. -/
+inductive EvalSite where
+  | inReflectiveCall   -- inside the function value built by `evalFunc` (method / chain / property-setter calls
+                       -- through reflection, global functions, `NewReflectionDescriber`): behind `defer rec(obj, &err)`
+  | elsewhere          -- the rest of `eval` (stack operations, declarations, type checks, property READS in evalChain)
+deriving DecidableEq, Repr, Inhabited
+
+/-- Two nested deferred recovers: `inner` around the reflective call (when the panic is raised there),
+`outer` = the closure of `tick.Evaluate` around everything. An inner recover that turns the panic into an
+error makes the call RETURN an error; `eval` propagates errors as errors. -/
+def evaluateOutcome (inner outer : DeferShape) (site : EvalSite) (v : PanicVal) : Outcome :=
+  match site with
+  | .elsewhere => runDeferred outer (.panics v)
+  | .inReflectiveCall =>
+    match runDeferred inner (.panics v) with
+    | .returns e => runDeferred outer (.ret e)
+    | .propagates v' => runDeferred outer (.panics v')
+
+/-- The REVIEWED inventory of slice / index / unchecked type-assertion sites of tick/eval.go and
+tick/stack.go (function, source, why). Map reads never panic in Go; the others are loop-indexed or
+length-guarded; `stack.Pop` is guarded by `panic(ErrEmptyStack)`, the one panic `tick.Evaluate` recovers. -/
+def reviewedEvalSites : List (String × String × String) := [
+  ("Evaluate", "trace[:n]", "n is what runtime.Stack wrote into trace"),
+  ("NewReflectionDescriber", "r.chainMethods[k]", "map write"),
+  ("ReflectionDescriber.CallChainMethod", "r.chainMethods[name]", "map read"),
+  ("ReflectionDescriber.HasChainMethod", "r.chainMethods[name]", "map read"),
+  ("ReflectionDescriber.HasProperty", "r.properties[name]", "map read"),
+  ("ReflectionDescriber.HasProperty", "r.propertyMethods[name]", "map read"),
+  ("ReflectionDescriber.Property", "r.properties[name]", "map read, comma-ok since 7803d70"),
+  ("ReflectionDescriber.SetProperty", "r.properties[name]", "map read"),
+  ("ReflectionDescriber.SetProperty", "r.propertyMethods[name]", "map read"),
+  ("ReflectionDescriber.SetProperty", "values[0]", "behind len(values) == 1; inside the reflective call"),
+  ("callMethodReflection", "rargs[i]", "range index; inside the reflective call"),
+  ("callMethodReflection", "ret[0]", "behind switch len(ret); inside the reflective call"),
+  ("callMethodReflection", "ret[1]", "behind switch len(ret) case 2; inside the reflective call"),
+  ("capitalizeFirst", "s[n:]", "n is the width DecodeRuneInString returned for s (0 for the empty string)"),
+  ("convertValueToVar", "list[i]", "range index"),
+  ("convertValueToVar", "values[i]", "same length as list"),
+  ("convertVarToValue", "list[i]", "range index"),
+  ("convertVarToValue", "values[i]", "same length as list"),
+  ("eval", "args[i]", "loop index below len(args)"),
+  ("eval", "nodes[i]", "loop index below len(nodes)"),
+  ("evalDeclaration", "defaultVars[name]", "map access"),
+  ("evalDeclaration", "predefinedVars[name]", "map read"),
+  ("evalFunc", "args[0]", "behind len(args) == 1"),
+  ("evalTypeDeclaration", "defaultVars[name]", "map access"),
+  ("evalTypeDeclaration", "predefinedVars[name]", "map read"),
+  ("getChainMethods", "chainMethods[k]", "map access"),
+  ("getChainMethods", "chainMethods[method.Name]", "map access"),
+  ("getChainMethods", "propertyMethods[method.Name]", "map access"),
+  ("getProperties", "properties[k]", "map access"),
+  ("getProperties", "properties[property.Name]", "map access"),
+  ("getProperties", "propertyMethods[k]", "map access"),
+  ("getProperties", "propertyMethods[methodName]", "map access"),
+  ("resolveIdents", "node.Args[i]", "range index"),
+  ("resolveIdents", "node.Nodes[i]", "range index"),
+  ("stack.Pop", "s.data[:l]", "behind the empty check (panic(ErrEmptyStack))"),
+  ("stack.Pop", "s.data[l]", "behind the empty check (panic(ErrEmptyStack))"),
+  ("stack.String", "s.data[i]", "range index")]
+
+def evalSiteReviewed (s : String × String) : Bool :=
+  reviewedEvalSites.any (fun r => r.1 == s.1 && r.2.1 == s.2)
+
+/-- `IsExprOperator(typ)`: strictly between `begin_tok_operator` and `end_tok_operator`. -/
+def isExprOperator (beginOp endOp typ : Nat) : Bool := beginOp < typ && typ < endOp
+
 /-! ## 4. JSON node factory -/
 
 inductive GetNode where
